@@ -1,13 +1,16 @@
 """Per-run certificate of the singular value decomposition behind the svd solver (helper of C01/C03/C20).
 
-The Lean theorems about the svd solver (`C01_svd_cert`, `C03_svd_*`, `C20_svd_*`) take
-    A = U diag(W) V',  V'V = I,  orthonormal columns of U for the non-null singular values,
-    every singular value exactly 0 or above W_tol * max W
-as a HYPOTHESIS (`Gama.Ls.Svd.SvdCert`): convergence and accuracy of the Golub-Reinsch iteration
-`SVD::svd()` are not proved.  `check_certificates` checks that hypothesis numerically, on the
-factors the REAL code computed, for every generated problem — the one place in the C01/C03/C20
-checks where a per-run numeric check stands in for a missing universal theorem.  It is reported in
-the evidence as `svd_certificates_checked` (+ the measured residuals).
+Since rounds 4-7 the Lean theorems about the svd solver no longer take the factorisation as a hypothesis: the
+algebra of the model of `SVD::svd()` is proved (`C01_svd_decompose_cert`: whenever `Svd.decompose` RETURNS,
+    A = U diag(W) V',  V'V = I,  orthonormal columns of U for the non-null singular values,  W >= 0),
+the svd theorems are stated for the factors `decompose` returns (`C01_svd_solve_decompose`, `C03_svd_decompose`,
+`C20_svd_decompose_*`; the old `C01_svd_cert`, `C03_svd_*`, `C20_svd_*` with `Gama.Ls.Svd.SvdCert` as a hypothesis
+remain), and "every singular value exactly 0 or above W_tol * max W" follows from the input-side `SingGap`
+(`C01_singgap_unambiguous`).  NOT proved: that the double-precision Golub-Reinsch iteration converges and that what it
+treats as negligible is negligible.  `check_certificates` checks exactly that numerically, on the factors the REAL
+code computed, for every generated problem (the three equations + the 0-or-above-tolerance reading of W) — a per-run
+numeric check of convergence / negligibility, no longer a stand-in for a missing algebraic theorem.  It is reported
+in the evidence as `svd_certificates_checked` (+ the measured residuals).
 
 Hook (lead):  in tools/props/c01.py (and c03.py) `correspond`, after the existing loop:
 
